@@ -45,10 +45,10 @@ SEQ = {
 # concurrent properties: workload kinds for the scheduler harness and the failure classes of
 # hist.check_run that count for the property
 SCHED = {
-    "C01": dict(kinds=["point", "split", "reuse", "overwrite"], classes=["nullvalue", "linearizability", "status", "held"]),
+    "C01": dict(kinds=["point", "split", "reuse", "overwrite", "rmrace"], classes=["nullvalue", "linearizability", "status", "held"]),
     "C04": dict(kinds=["scan", "split", "reuse", "scanedge"], classes=["nullvalue", "linearizability", "order", "status"]),
     "C06": dict(kinds=["nodeset", "scan", "scanedge"], classes=["nodeset"]),
-    "C09": dict(kinds=["split", "point", "scan", "cursor", "collapse", "collapse", "collapse"], classes=["progress", "structure", "lockorder"], trace=True, monitor="vers", lockorder=True),
+    "C09": dict(kinds=["split", "point", "scan", "cursor", "collapse", "collapse", "collapse", "rmrace"], classes=["progress", "structure", "lockorder"], trace=True, monitor="vers", lockorder=True),
     "C07": dict(kinds=["epoch"], classes=["epoch", "held", "nullvalue", "ledger", "progress"], trace=True, runs_scale=0.4, monitor="epoch"),
     # concurrent clauses of properties whose sequential part is checked by the seq engine
     "C10": dict(kinds=["cursor", "reuse"], classes=["nullvalue", "linearizability", "order", "status"]),
@@ -112,7 +112,13 @@ def check_unit(prop, tier, seed):
     else:
         scale = "1" if tier == "quick" else "8"
         env = dict(os.environ, VERIF_SEED=str(seed))
-        p = subprocess.run([binary, spec["what"], scale], capture_output=True, text=True, env=env)
+        try:
+            p = subprocess.run([binary, spec["what"], scale], capture_output=True, text=True, env=env,
+                               timeout=300 if tier == "quick" else 1800)
+        except subprocess.TimeoutExpired as e:
+            # e.g. a spin on a word that should have been returned at once: a hang is a result
+            tail = (e.stdout.decode() if isinstance(e.stdout, bytes) else (e.stdout or ""))[-400:]
+            p = subprocess.CompletedProcess(e.cmd, -999, "", "unitdrv did not finish within the time limit (hang); last output: " + tail)
         if p.returncode != 0:
             replay = vlib.write_replay(prop, seed, 0, {"broken": "unitdrv crashed", "detail": p.stderr[-2000:], "cmd": "unitdrv %s %s" % (spec["what"], scale)})
             nviol, found = 1, True
